@@ -32,6 +32,13 @@
 // CRASH at a label (the call fails, every pending uncommitted file vanishes and
 // every later call fails, until Restart).
 //
+// Interleavings: BeforeOp(k, f) runs f right before the k-th file operation (see
+// there); together with the open-descriptor semantics above (an opened file keeps
+// reading the content it was opened on after the path is replaced or removed, as
+// with rename-over/unlink on a POSIX file system, which is what the local
+// implementation does: Create writes a temporary file and renames it at Close,
+// Remove unlinks) this lets a check enumerate reader/writer races exhaustively.
+//
 // Volumes: the package-level functions act on the default volume, which serves
 // every vfs:// path that does not start with the name of a volume made by New.
 // Named volumes are independent (own files, log, faults) so that independent cases
@@ -121,6 +128,11 @@ type FS struct {
 	failed  []string
 	crashed bool
 	clock   int64
+
+	// interleaving hooks (BeforeOp)
+	nops   int
+	hooks  map[int]func()
+	inHook bool
 }
 
 var (
@@ -194,6 +206,9 @@ func (fs *FS) reset() {
 	fs.failed = nil
 	fs.crashed = false
 	fs.clock = 0
+	fs.nops = 0
+	fs.hooks = map[int]func(){}
+	fs.inHook = false
 }
 
 // Reset makes the volume empty and clears log, ordinals, faults and crash state.
@@ -238,6 +253,53 @@ func (fs *FS) Failures() []string {
 	fs.mu.Lock()
 	defer fs.mu.Unlock()
 	return append([]string(nil), fs.failed...)
+}
+
+// Ops returns the number of file operations (calls of the ops listed in the package
+// comment) made since Reset, not counting operations made from inside a BeforeOp
+// function. The next operation has number Ops().
+func (fs *FS) Ops() int {
+	fs.mu.Lock()
+	defer fs.mu.Unlock()
+	return fs.nops
+}
+
+// BeforeOp arranges for f to run, once, immediately before file operation number k
+// (numbering as in Ops) starts: synchronously on the goroutine making that call,
+// with no vfs lock held, so f may itself use the file system. Operations made by f
+// are logged and labelled as usual but are not numbered and trigger no hooks. This
+// enumerates the interleavings of a second actor (f, atomic) with the operations
+// of the first at file-operation granularity: run the first actor once per k.
+// Intended for one driving goroutine per volume. Reset clears all hooks.
+func (fs *FS) BeforeOp(k int, f func()) {
+	fs.mu.Lock()
+	defer fs.mu.Unlock()
+	fs.hooks[k] = f
+}
+
+// hookPoint is called at the start of every file operation, before the lock.
+func (fs *FS) hookPoint() {
+	fs.mu.Lock()
+	if fs.inHook {
+		fs.mu.Unlock()
+		return
+	}
+	k := fs.nops
+	fs.nops++
+	f := fs.hooks[k]
+	if f == nil {
+		fs.mu.Unlock()
+		return
+	}
+	delete(fs.hooks, k)
+	fs.inHook = true
+	fs.mu.Unlock()
+	defer func() {
+		fs.mu.Lock()
+		fs.inHook = false
+		fs.mu.Unlock()
+	}()
+	f()
 }
 
 // Crashed reports whether a Crash fault has happened (and no Restart since).
@@ -372,6 +434,7 @@ func (impl) String() string { return Scheme }
 
 func (impl) Create(ctx context.Context, path string, _ ...file.Opts) (file.File, error) {
 	fs := volumeOf(path)
+	fs.hookPoint()
 	fs.mu.Lock()
 	defer fs.mu.Unlock()
 	p := fs.rel(path)
@@ -388,6 +451,7 @@ func (impl) Create(ctx context.Context, path string, _ ...file.Opts) (file.File,
 
 func (impl) Open(ctx context.Context, path string, _ ...file.Opts) (file.File, error) {
 	fs := volumeOf(path)
+	fs.hookPoint()
 	fs.mu.Lock()
 	defer fs.mu.Unlock()
 	p := fs.rel(path)
@@ -403,6 +467,7 @@ func (impl) Open(ctx context.Context, path string, _ ...file.Opts) (file.File, e
 
 func (impl) Stat(ctx context.Context, path string, _ ...file.Opts) (file.Info, error) {
 	fs := volumeOf(path)
+	fs.hookPoint()
 	fs.mu.Lock()
 	defer fs.mu.Unlock()
 	p := fs.rel(path)
@@ -418,6 +483,7 @@ func (impl) Stat(ctx context.Context, path string, _ ...file.Opts) (file.Info, e
 
 func (impl) Remove(ctx context.Context, path string) error {
 	fs := volumeOf(path)
+	fs.hookPoint()
 	fs.mu.Lock()
 	defer fs.mu.Unlock()
 	p := fs.rel(path)
@@ -434,6 +500,7 @@ func (impl) Remove(ctx context.Context, path string) error {
 
 func (impl) Presign(ctx context.Context, path, method string, expiry time.Duration) (string, error) {
 	fs := volumeOf(path)
+	fs.hookPoint()
 	fs.mu.Lock()
 	defer fs.mu.Unlock()
 	if _, _, err := fs.enter("Presign", fs.rel(path)); err != nil {
@@ -447,6 +514,7 @@ func (impl) Presign(ctx context.Context, path, method string, expiry time.Durati
 // it. If path names a file, that file alone is listed.
 func (impl) List(ctx context.Context, path string, recursive bool) file.Lister {
 	fs := volumeOf(path)
+	fs.hookPoint()
 	fs.mu.Lock()
 	defer fs.mu.Unlock()
 	p := fs.rel(path)
@@ -553,6 +621,7 @@ func (w *wfile) usable(op string) error {
 }
 
 func (w *wfile) Stat(ctx context.Context) (file.Info, error) {
+	w.fs.hookPoint()
 	w.fs.mu.Lock()
 	defer w.fs.mu.Unlock()
 	if _, _, err := w.fs.enter("FStat", w.p); err != nil {
@@ -574,6 +643,7 @@ type wwriter struct{ w *wfile }
 
 func (ww wwriter) Write(b []byte) (int, error) {
 	w := ww.w
+	w.fs.hookPoint()
 	w.fs.mu.Lock()
 	defer w.fs.mu.Unlock()
 	_, mode, err := w.fs.enter("Write", w.p)
@@ -593,6 +663,7 @@ func (ww wwriter) Write(b []byte) (int, error) {
 }
 
 func (w *wfile) Close(ctx context.Context) error {
+	w.fs.hookPoint()
 	w.fs.mu.Lock()
 	defer w.fs.mu.Unlock()
 	_, _, err := w.fs.enter("Close", w.p)
@@ -617,6 +688,7 @@ func (w *wfile) Close(ctx context.Context) error {
 }
 
 func (w *wfile) Discard(ctx context.Context) {
+	w.fs.hookPoint()
 	w.fs.mu.Lock()
 	defer w.fs.mu.Unlock()
 	w.fs.enter("Discard", w.p)
@@ -643,6 +715,7 @@ func (r *rfile) String() string { return r.path }
 func (r *rfile) Name() string   { return r.path }
 
 func (r *rfile) Stat(ctx context.Context) (file.Info, error) {
+	r.fs.hookPoint()
 	r.fs.mu.Lock()
 	defer r.fs.mu.Unlock()
 	if _, _, err := r.fs.enter("FStat", r.p); err != nil {
@@ -663,6 +736,7 @@ func (r *rfile) Writer(context.Context) io.Writer {
 func (r *rfile) Discard(ctx context.Context) {}
 
 func (r *rfile) Close(ctx context.Context) error {
+	r.fs.hookPoint()
 	r.fs.mu.Lock()
 	defer r.fs.mu.Unlock()
 	_, _, err := r.fs.enter("CloseR", r.p)
@@ -681,6 +755,7 @@ type rreader struct{ r *rfile }
 
 func (rr rreader) Read(b []byte) (int, error) {
 	r := rr.r
+	r.fs.hookPoint()
 	r.fs.mu.Lock()
 	defer r.fs.mu.Unlock()
 	if _, _, err := r.fs.enter("Read", r.p); err != nil {
@@ -702,6 +777,7 @@ func (rr rreader) Read(b []byte) (int, error) {
 
 func (rr rreader) Seek(off int64, whence int) (int64, error) {
 	r := rr.r
+	r.fs.hookPoint()
 	r.fs.mu.Lock()
 	defer r.fs.mu.Unlock()
 	if _, _, err := r.fs.enter("Seek", r.p); err != nil {
